@@ -5,7 +5,7 @@ set -e
 HERE="$(cd "$(dirname "${BASH_SOURCE[0]}")/.." && pwd)"
 M=$(mktemp -d /tmp/mut_XXXXXX)
 trap 'rm -rf "$M"' EXIT
-rsync -a --exclude .git --exclude 'aldy/tests/resources/*.bam' --exclude 'aldy/tests/resources/*.tar.gz' /repo/ "$M/"
+rsync -a --exclude .git /repo/ "$M/"
 spec="$1"; shift
 if [[ "$spec" == sed:* ]]; then
   IFS=':' read -r _ file expr <<< "$spec"
